@@ -273,13 +273,10 @@ structure TS where
   abortedSuites : List (Option Path)    -- `_aborted_suites.add(suite)` (None when called without suite)
   abortAll : Bool
   err : Option String         -- the model reached a state the real code would crash in (assertion/lookup)
-  ptLog : List (Nat × (InstKey × String × Nat))   -- per-thread objects created: (items emitted by then, object)
-  lookups : Nat := 0          -- `get_fixture_result` calls so far
-  failLookupsFrom : Option Nat := none   -- D11: results deleted under an in-flight task: lookups ≥ this index assert
 
 instance : Inhabited TS :=
   ⟨{ sess := Session.St.init, out := #[], acts := 0, cut := none, nextChild := 1, insts := Insts.empty,
-     abortedSuites := [], abortAll := false, err := none, ptLog := [] }⟩
+     abortedSuites := [], abortAll := false, err := none }⟩
 
 abbrev M := StateM TS
 
@@ -392,11 +389,6 @@ def instFixtures (P : Proj) (svs : List SuiteView) : InstKey → List String
     executed by worker `w`.  A per-thread fixture creates its object lazily here — user code. -/
 def getFixtureResult (P : Proj) (svs : List SuiteView) (w : Nat) (k : InstKey) (suite : Path) (name : String) :
     M (Option ExcKind) := do
-  let idx := (← get).lookups
-  modify fun ts => { ts with lookups := idx + 1 }
-  match (← get).failLookupsFrom with
-  | some j => if j ≤ idx then return some .exc
-  | none => pure ()
   let chain := instChain k suite
   match chain.find? (fun ik => (instFixtures P svs ik).contains name) with
   | none => do modelErr s!"LookupError: fixture {name}"; return none
@@ -412,8 +404,7 @@ def getFixtureResult (P : Proj) (svs : List SuiteView) (w : Nat) (k : InstKey) (
             -- `setup_object` → `_build_fixture_result_from_func`: the fixture function runs now
             let r ← runUnit (.fx f.func false) f.setup
             if r.isNone then
-              modify fun ts => { ts with insts := { ts.insts with ptObjects := ts.insts.ptObjects ++ [(ik, name, w)] },
-                                         ptLog := ts.ptLog ++ [(ts.out.size, (ik, name, w))] }
+              modify fun ts => { ts with insts := { ts.insts with ptObjects := ts.insts.ptObjects ++ [(ik, name, w)] } }
             return r
         else return none
 
@@ -548,7 +539,6 @@ structure TaskOut where
   res : ResClass
   eff : Effects
   err : Option String
-  ptLog : List (Nat × (InstKey × String × Nat))
 deriving Repr, Inhabited
 
 def phaseProgram (P : Proj) (svs : List SuiteView) (w : Nat) (suite : Path) (loc : Loc)
@@ -685,14 +675,14 @@ def taskProgram (P : Proj) (svs : List SuiteView) (w : Nat) (t : TaskId) (run : 
 
 /-- run one task from scratch on worker `w` -/
 def runTask (P : Proj) (insts : Insts) (w : Nat) (t : TaskId) (run : Bool) (reason : Bool) (kept : List Td)
-    (cut : Option Nat) (failLookupsFrom : Option Nat := none) : TaskOut :=
+    (cut : Option Nat) : TaskOut :=
   let svs := allSuites P
   let ts0 : TS := { sess := Session.St.init, out := #[], acts := 0, cut := cut, nextChild := 1, insts := insts,
-                    abortedSuites := [], abortAll := false, err := none, ptLog := [], failLookupsFrom := failLookupsFrom }
+                    abortedSuites := [], abortAll := false, err := none }
   let ((res, kept'), ts) := (taskProgram P svs w t run reason kept).run ts0
   { items := ts.out.toList, res := res,
     eff := { insts := ts.insts, kept := kept', abortedSuites := ts.abortedSuites, abortAll := ts.abortAll,
              failed := !ts.sess.failures.isEmpty },
-    err := ts.err, ptLog := ts.ptLog }
+    err := ts.err }
 
 end LccModel.Run
